@@ -269,4 +269,23 @@ func runC11(c *Ctx) {
 		r.Count(fmt.Sprint(in), true, "session")
 		r.Traces++
 	}
+	// a server that LOWERS the limit below the default, then messages whose lines fall between the new limit and the
+	// default one (they fit the default and must still be split)
+	for _, tok := range []string{"LINELEN=300 NICKLEN=20", "NICKLEN=50 USERLEN=30 HOSTLEN=100", "LINELEN=200", "NICKLEN=40 HOSTLEN=100", "LINELEN=400 NICKLEN=60"} {
+		in := map[string]string{"nick": "me", "check": "c11"}
+		steps := []string{"R:srv 001 me :Welcome", "R:srv 005 me " + tok + " :are supported by this server", "D"}
+		for L := 120 + c.Rng.Intn(9); L <= 430; L += 23 {
+			var b strings.Builder
+			for b.Len() < L {
+				b.WriteString(c.Rng.From("abcdefghij", 1+c.Rng.Intn(9)))
+				b.WriteByte(' ')
+			}
+			steps = append(steps, "C"+c.Rng.Pick([]string{"Message", "Notice"})+"\x00#chan\x00"+strings.TrimSpace(b.String()[:L]))
+		}
+		steps = append(steps, "D")
+		stepsToIn(in, steps)
+		c.run("session", in)
+		r.Count(fmt.Sprint(in), true, "session-lowered-limit")
+		r.Traces++
+	}
 }
